@@ -637,6 +637,86 @@ def gen_reuse_case(rng, regex_ok=True):
     return "T|" + ";".join(ops + seq)
 
 
+# ---------------------------------------------------------------- substring search (MemMem, strstr, StrcasestrEx)
+
+def _words(alpha, maxlen):
+    out = [[]]
+    level = [[]]
+    for _ in range(maxlen):
+        level = [w + [c] for w in level for c in alpha]
+        out += level
+    return out
+
+
+def search_cases(rng, tier):
+    """needle/haystack pairs over tiny alphabets (incl. 0x00): every haystack up to a length, every short needle, so that
+    the needle's first byte occurs at non-matching positions before the real occurrence (ab in aaab, abab in ababab ..);
+    plus longer random haystacks with a planted needle behind partial matches.  Raw and String infix/prefix/suffix
+    operators, both directions, plain and negated."""
+    out = []
+    hay_len = 5 if tier == "quick" else 7
+
+    def emit(kind, op, value_hex, items_hex, neg, tc=None):
+        ops = []
+        for r, it in enumerate(items_hex[:8]):
+            if kind == "raw":
+                ops.append("a:%d:%s:X:%s" % (r, sx("r"), it))
+            else:
+                ops.append("a:%d:%s:s:%s" % (r, sx("r"), it))
+        if kind == "raw":
+            ops.append("fr:%s:0:%d:%d:%s:-" % (sx("r"), op, tc if tc is not None else TC["X"], value_hex))
+        else:
+            ops.append("fs:s:%s:0:%d:%s:-" % (sx("r"), op, value_hex))
+        if neg:
+            ops.append("f~:0:1")
+        out.append(("search", "T|" + ";".join(ops)))
+
+    def chunks(l, n=8):
+        for i in range(0, len(l), n):
+            yield l[i:i + n]
+
+    for alpha, kind in (([0x00, 0x01], "raw"), ([0x61, 0x62], "raw"), ([0x61, 0x62], "str"), ([0x61, 0x41, 0x62], "str")):
+        hays = _words(alpha, hay_len if len(alpha) == 2 else hay_len - 2)
+        needles = [w for w in _words(alpha, 3 if len(alpha) == 2 else 2)]
+        if kind == "raw":
+            hays = [h for h in hays if h]
+            needles = [n for n in needles if n]
+        ops_fwd = (8, 6, 7) if kind == "raw" else (8, 6, 7, 20)          # value = needle, items = haystacks
+        ops_rev = (11, 9, 10) if kind == "raw" else (11, 9, 10, 23)     # value = haystack, items = needles
+        for n in needles:
+            for ch in chunks(hays):
+                for op in ops_fwd[:1] if tier == "quick" and rng.random() < 0.5 else ops_fwd:
+                    emit(kind, op, hx(n), [hx(h) for h in ch], rng.random() < 0.2, ANY if rng.random() < 0.2 else None)
+        # reverse direction: sample of haystacks as the filter's value
+        for h in rng.sample(hays, min(len(hays), 40 if tier == "quick" else 150)):
+            for ch in chunks(needles):
+                for op in ops_rev:
+                    emit(kind, op, hx(h) if (h or kind == "str") else "00", [hx(n) for n in ch], rng.random() < 0.2)
+    # longer haystacks: a needle planted at every offset behind a run of partial matches
+    nrand = 150 if tier == "quick" else 1500
+    for _ in range(nrand):
+        kind = rng.choice(["raw", "raw", "str"])
+        alpha = rng.choice([[0x00, 0x01], [0x61, 0x62], [0x61], [0x00], [0x61, 0x62, 0x63]]) if kind == "raw" else rng.choice([[0x61, 0x62], [0x61], [0x61, 0x42, 0x62]])
+        nl = rng.choice([1, 2, 2, 3, 3, 4, 5])
+        needle = [rng.choice(alpha) for _ in range(nl)]
+        if rng.random() < 0.6 and nl >= 2:
+            needle = [alpha[0]] * (nl - 1) + [alpha[-1]]           # a..ab : every earlier a is a failed candidate
+        items = []
+        for r in range(8):
+            pre = [needle[0]] * rng.choice([0, 1, 2, 3, 5]) if rng.random() < 0.7 else [rng.choice(alpha) for _ in range(rng.randint(0, 6))]
+            post = [rng.choice(alpha) for _ in range(rng.randint(0, 3))]
+            mid = needle if rng.random() < 0.75 else needle[:-1]
+            h = (pre + mid + post)[:10]
+            items.append(h if h else [alpha[0]])
+        op = rng.choice([8, 8, 8, 6, 7, 0, 5])
+        emit(kind, op, hx(needle), [hx(h) for h in items], rng.random() < 0.25)
+        # and the same pairs the other way round (value = one haystack, items = needle variants)
+        h = rng.choice(items)
+        variants = [needle, needle[:-1] or needle, needle[1:] or needle, h, h[1:] or h, needle + [alpha[0]], [alpha[-1]] + needle, needle[::-1]]
+        emit(kind, rng.choice([11, 11, 9, 10]), hx(h), [hx(v) for v in variants], rng.random() < 0.25)
+    return out
+
+
 def deep_archive_cases():
     """a valid leaf archive wrapped in many levels of kid nesting (a safe depth: the unbounded recursion itself is finding F5)"""
     out = []
@@ -714,7 +794,8 @@ class CHECK(vlib.Check):
             "8 Messages directly, archived, sent through Flatten/Unflatten, restored and evaluated again; every line (tree read from the objects' "
             "private members, decisions, archive content, restored tree and decisions) is compared with the extracted model; the harness's own "
             "documented-semantics evaluator (native C++ comparisons on the decoded values), byte-identity of the Messages after Matches(), "
-            "restored-decides-identically and expression-decides-as-denoted are the oracle.  Non-trivial = at least two filter nodes, or a "
+            "restored-decides-identically and expression-decides-as-denoted are the oracle.  A dedicated stream enumerates needle/haystack pairs over "
+            "1-3 letter alphabets (incl. 0x00) for the infix/prefix/suffix operators (the oracle uses std::search / std::string::find).  Non-trivial = at least two filter nodes, or a "
             "float/double/Point/Rect comparison, or an archive/expression construction, and at least one non-empty Message.")
 
     def build(self):
@@ -747,6 +828,7 @@ class CHECK(vlib.Check):
         for i in range(n // 8):
             out.append(("expr-index-default", gen_expr_case(rng, set(["idx", "def"]))))
             out.append(("expr-synonym-in-name", gen_expr_case(rng, set(["syn"]))))
+        out += search_cases(rng, tier)
         out += directed_cases()
         out += deep_archive_cases()
         return out
